@@ -26,8 +26,26 @@ def main():
     a = s.index(hdr) + len(hdr)
     b = s.index("\n\n", a)
     s = s[:a] + "\n".join(rows) + s[b:]
+    # the repaired-defects and the known-findings tables of section 8, from known_findings.json
+    kf = json.load(open(os.path.join(VERIF, "known_findings.json")))["findings"]
+
+    def what(f):
+        w = re.sub(r"^fixed:\s*property=\S+\s+[0-9a-f,\s]+?\s(?=\S)", "", f["what"], count=1)
+        return w.replace("|", "\\|")
+    fixed = [f for f in kf if f["status"] == "fixed"]
+    known = [f for f in kf if f["status"] == "known"]
+    t1 = "| prop | commit | what failed |\n| --- | --- | --- |\n" + "\n".join(
+        "| %s | %s | %s |" % (f["property"], f.get("commit", ""), what(f)) for f in fixed) + "\n"
+    a = s.index("| prop | commit | what failed |")
+    b = s.index("Known findings (recorded, not repaired")
+    s = s[:a] + t1 + "\n" + s[b:]
+    t2 = "| id | prop | what | witness |\n| --- | --- | --- | --- |\n" + "\n".join(
+        "| %s | %s | %s | %s |" % (f["id"], f["property"], f["what"].replace("|", "\\|"), f.get("witness", "")) for f in known) + "\n"
+    a = s.index("| id | prop | what | witness |")
+    b = s.index("Why these are not repaired")
+    s = s[:a] + t2 + "\n" + s[b:]
     open(p, "w").write(s)
-    print(len(rows), "rows")
+    print(len(rows), "rows;", len(fixed), "repaired,", len(known), "known")
 
 
 if __name__ == "__main__":
